@@ -1914,8 +1914,9 @@ impl XmlDocumentTypeDeclaration {
                             let entity = XmlEntity::node(v, declaration_id, context);
                             declaration.borrow_mut().push_child(entity);
                         }
-                        parser::DeclarationEntity::ParameterEntity(_) => {
-                            unimplemented!("Not support parameter entity reference.")
+                        parser::DeclarationEntity::ParameterEntity(v) => {
+                            // Not support parameter entity.
+                            return Err(error::Error::InvalidData(format!("%{};", v.name)));
                         }
                     },
                     parser::DeclarationMarkup::Notation(v) => {
@@ -1927,8 +1928,9 @@ impl XmlDocumentTypeDeclaration {
                         declaration.borrow_mut().push_child(pi);
                     }
                 },
-                parser::InternalSubset::ParameterEntityReference(_) => {
-                    unimplemented!("Not support parameter entity reference.")
+                parser::InternalSubset::ParameterEntityReference(v) => {
+                    // Not support parameter entity reference.
+                    return Err(error::Error::InvalidData(format!("%{};", v)));
                 }
                 parser::InternalSubset::Whitespace(_) => {
                     // drop
